@@ -384,11 +384,14 @@ fn op_encode(c: &Value, ev: &mut Map<String, Value>) -> Result<(), String> {
     let wr = c["wr"].as_str().unwrap_or("vec");
     if let Val::Avp(a) = &val {
         match guarded(|| a.get_length()) {
-            Ok(n) => ev.insert("glen".into(), json!(n)),
-            Err(p) => ev.insert("glen".into(), p),
+            // (a panic inside get_length, or a wrapped value, is data: reported apart so that the numeric field
+            // stays numeric and within the specification's integers)
+            Ok(n) if n <= 2_000_000_000 => ev.insert("glen".into(), json!(n)),
+            Ok(_) => ev.insert("glen_bad".into(), json!("huge")),
+            Err(_) => ev.insert("glen_bad".into(), json!("panic")),
         };
     }
-    if !prefix.is_empty() {
+    if !prefix.is_empty() || wr == "sparse" {
         // the implementation's own encoding of the same value into an empty writer (C09 compares with it)
         let mut w0 = VecWriter::new();
         let o = guarded(|| write_val(&val, &mut w0));
@@ -415,6 +418,22 @@ fn op_encode(c: &Value, ev: &mut Map<String, Value>) -> Result<(), String> {
         }
         "mon" => {
             let mut w = MonWriter::with_prefix(&prefix);
+            let o = guarded(|| write_val(&val, &mut w));
+            ev.insert(
+                "out".into(),
+                match o {
+                    Ok(()) => json!({"t": "ok", "v": bytes_json(&w.data)}),
+                    Err(p) => p,
+                },
+            );
+            ev.insert("calls".into(), Value::Array(w.calls));
+        }
+        "sparse" => {
+            // a writer that behaves as if it already held 2^k + add octets; everything is logged relative to that
+            let k = c["vbase_log2"].as_u64().unwrap_or(32) as u32;
+            let add = c["vbase_add"].as_i64().unwrap_or(0);
+            let vbase = ((1u64 << k) as i128 + add as i128) as usize;
+            let mut w = crate::mon::SparseWriter::new(vbase);
             let o = guarded(|| write_val(&val, &mut w));
             ev.insert(
                 "out".into(),
